@@ -133,7 +133,11 @@ def gen_scenarios(rnd, n):
             continue
         m1 = cap if cap else total
         sched = [{"tasks": tasks, "cap": cap}]
-        if rnd.random() < 0.75:
+        r2 = rnd.random()
+        if r2 < 0.2 and m1 <= 3:
+            # a SECOND completed-by parallel element (named task + an eternal one)
+            sched.append({"tasks": [{"id": k + 1, "clients": 1, "reqs": rnd.choice([1, 2]), "cp": True, "acp": False}, {"id": k + 2, "clients": 1, "reqs": ETERNAL, "cp": False, "acp": False}], "cap": 0})
+        elif r2 < 0.8:
             sched.append({"tasks": [{"id": k + 1, "clients": rnd.choice([1, 2, 3]), "reqs": 1, "cp": False, "acp": False}], "cap": 0})
         if rnd.random() < 0.2:
             sched.reverse()  # the parallel element comes second
